@@ -727,8 +727,16 @@ def needs_sep(a: str, b: str) -> bool:
     return False
 
 
-def layout(toks: list[Tok], rnd: random.Random | None = None, style: str = "canonical") -> tuple[str, dict]:
-    """place tokens; returns (text, positions) with positions[key] = {"start": (line, col), "end": (line, col)} (0-based)"""
+RICH_UNITS = [" ", "  ", "\t", "\n", "\r\n", "\n\n   ", " \r", "/**/", "/***/", "/*/ */", "/* a\n * b\n */", "/* ' \" ''' \"\"\" */", "/* // */",
+              "/* é😀 */", "// x\n", "//\n", "// ' \" /* \r\n", "// é😀 */\n", "\\\n", "\\ \t\n", "\\\r\n", "\\\r", "\\ \n\n  ", "\\\x0c"]
+RICH_TAILS = ["", "", "\n", "  ", "// eof without newline", "/* unterminated", "/*", "\t/* é\n *", "\\\n"]
+
+
+def layout(toks: list[Tok], rnd: random.Random | None = None, style: str = "canonical", rich: bool = False) -> tuple[str, dict]:
+    """place tokens; returns (text, positions) with positions[key] = {"start": (line, col), "end": (line, col)} (0-based).
+    `rich` (random style only): half of the separators are sequences of 1-3 units from a larger pool (multi-line block comments,
+    comments with quotes / comment openers / non-ASCII text, every line-joining form, \\r as a blank), there may be a separator
+    before the first token, and the text may end in a comment that runs to the end of the input."""
     out: list[str] = []
     line, col = 0, 0
     pos: dict = {}
@@ -746,6 +754,10 @@ def layout(toks: list[Tok], rnd: random.Random | None = None, style: str = "cano
 
     def random_sep(required: bool) -> str:
         assert rnd is not None
+        if rich and rnd.random() < 0.5:
+            if not required and rnd.random() < 0.3:
+                return ""
+            return "".join(rnd.choice(RICH_UNITS) for _ in range(rnd.choice([1, 1, 2, 3])))
         c = rnd.random()
         if c < 0.45:
             return " " if required or rnd.random() < 0.6 else ""
@@ -764,6 +776,9 @@ def layout(toks: list[Tok], rnd: random.Random | None = None, style: str = "cano
         return "  \n\n  "
 
     prev = ""
+    rich_random = rich and style == "random" and rnd is not None
+    if rich_random and rnd.random() < 0.5:
+        emit("".join(rnd.choice(RICH_UNITS) for _ in range(rnd.choice([1, 2]))))
     for i, tk in enumerate(toks):
         if i > 0:
             req = needs_sep(prev, tk.text)
@@ -794,7 +809,7 @@ def layout(toks: list[Tok], rnd: random.Random | None = None, style: str = "cano
                 # position of the LAST token's start (the closing '>' of a Position literal)
                 pos.setdefault(key, {})["end"] = (start_line, start_col)
         prev = tk.text
-    emit("\n")
+    emit(rnd.choice(RICH_TAILS) if rich_random else "\n")
     return "".join(out), pos
 
 
